@@ -188,7 +188,7 @@ def run(rep: Report, tier: str) -> None:
             elif isinstance(n, ast.Subscript) and isinstance(n.slice, ast.Constant) and isinstance(n.slice.value, int) \
                     and isinstance(n.value, ast.Attribute) and n.value.attr in ("values", "array"):
                 bad = src(n)
-            if bad and any(isinstance(x, ast.Name) and x.id in ("df", "data", "dataframe") for x in ast.walk(n)):
+            if bad:
                 rep.add(Finding("R33.3", f"R33.3/{g.qualname}/{bad[:40]}", g.module.rel, n.lineno, g.qualname,
                                 f"`{bad[:70]}` samples input values by position: a decision taken from it (e.g. DATE vs TIMESTAMP) changes when "
                                 f"the rows of the same table are permuted"))
